@@ -1,0 +1,26 @@
+//go:build verif
+
+// Machine-checked contracts for package strategy/volatility (read by /verif/govc; comment-only).
+// C05: one action per snapshot, Hold through the warm-up w of each strategy (w is written out per strategy).
+
+package volatility
+
+//@ func BollingerBandsStrategy.Compute
+//@ requires b.BollingerBands.Period >= 1 && consumed(snapshots) == 0
+//@ ensures[C05] "len" len(snapshots) >= (b.BollingerBands.IdlePeriod()) ==> len(result) == len(snapshots)
+//@ ensures[C05] "len-short" len(result) >= len(snapshots)
+//@ ensures[C05] "warmup-hold" forall kk :: 0 <= kk && kk < min((b.BollingerBands.IdlePeriod()), len(result)) ==> result[kk] == 0
+//@ ensures[C05] "short-hold" len(snapshots) < (b.BollingerBands.IdlePeriod()) ==> (forall kk :: 0 <= kk && kk < len(result) ==> result[kk] == 0)
+//@ ensures[C05] "range" forall kk :: 0 <= kk && kk < len(result) ==> 0 - 1 <= result[kk] && result[kk] <= 1
+//@ ensures[C03] consumed(snapshots) == len(snapshots) && closed(result)
+//@ ensures[C04] forall kk :: 0 <= kk && kk < len(result) ==> hor(result, kk) <= hor(snapshots, kk)
+
+//@ func SuperTrendStrategy.Compute
+//@ requires consumed(snapshots) == 0
+//@ ensures[C05] "len" len(snapshots) >= (s.SuperTrend.IdlePeriod()) ==> len(result) == len(snapshots)
+//@ ensures[C05] "len-short" len(result) >= len(snapshots)
+//@ ensures[C05] "warmup-hold" forall kk :: 0 <= kk && kk < min((s.SuperTrend.IdlePeriod()), len(result)) ==> result[kk] == 0
+//@ ensures[C05] "short-hold" len(snapshots) < (s.SuperTrend.IdlePeriod()) ==> (forall kk :: 0 <= kk && kk < len(result) ==> result[kk] == 0)
+//@ ensures[C05] "range" forall kk :: 0 <= kk && kk < len(result) ==> 0 - 1 <= result[kk] && result[kk] <= 1
+//@ ensures[C03] consumed(snapshots) == len(snapshots) && closed(result)
+//@ ensures[C04] forall kk :: 0 <= kk && kk < len(result) ==> hor(result, kk) <= hor(snapshots, kk)
